@@ -12,18 +12,34 @@ open NanoVerif.Tensor NanoVerif.Mask
 def FMap.describes (m : FMap) (f : Feature) : Prop :=
   m.classes = f.classes ∧ m.d0 = f.d0 ∧ m.d1 = f.d1 ∧ m.d2 = f.d2
 
+/-- how a mapping row relates to its source feature: identity / product rows copy its classes and dims
+    (`FMap.describes`); a gradient row (elemwise_gradient.cpp:22-40) has the dims `(1, rows − 2, cols − 2)` of the filtered
+    map of one channel, a channel of the source and a mode 0..3 -/
+def rowDescribes (k : GKind) (m : FMap) (f : Feature) : Prop :=
+  match k with
+  | .gradient _ => m.classes = f.classes ∧ m.d0 = 1 ∧ m.d1 + 2 = f.d1 ∧ m.d2 + 2 = f.d2 ∧ m.chan < f.d0 ∧ m.mode < 4 ∧
+      1 ≤ m.d1 ∧ 1 ≤ m.d2
+  | _ => m.describes f
+
+/-- no feature of the generator is the 1x1 output map the gradient generator derives from a 3x3 image: such a feature is
+    described as a scalar but served only by the structured `select` (open finding `gradient-1x1-select-unwritten`) -/
+def Gen.NonDegenerate (g : Gen) : Prop := ∀ k, g.kind = .gradient k → ∀ m ∈ g.mapping, 1 < m.d1 * m.d2
+
 /-- what `fit` establishes and the flag operations preserve -/
 structure Gen.WF (st : Storage) (g : Gen) : Prop where
   infos_len : g.infos.length = g.mapping.length
   rows : ∀ (i : Nat) (m : FMap), g.mapping[i]? = some m →
-    ∃ f, st.inputFeature m.orig = some f ∧ kindAccepts g.kind f = true ∧ m.describes f ∧
+    ∃ f, st.inputFeature m.orig = some f ∧ kindAccepts g.kind f = true ∧ rowDescribes g.kind m f ∧
       (g.kind = .product → ∃ f2, st.inputFeature m.orig2 = some f2 ∧ f2.isScalar = true)
+  /-- the second source of a pair-wise computer is an input feature of the second selected kind -/
+  rows2 : ∀ (c : Custom) (k2 : IKind), g.kind = .custom c → c.in2 = some k2 → ∀ (i : Nat) (m : FMap),
+    g.mapping[i]? = some m → ∃ f2, st.inputFeature m.orig2 = some f2 ∧ k2.accepts f2 = true
 
 theorem selectFeatures_spec (st : Storage) (accept : Feature → Bool) (idx : List Nat) :
     ∀ ms, idx.foldr (fun i acc => do
         let rest ← acc
         let f ← st.inputFeature i
-        pure (if accept f then (⟨i, f.classes, f.d0, f.d1, f.d2, 0⟩ : FMap) :: rest else rest)) (some []) = some ms →
+        pure (if accept f then (⟨i, f.classes, f.d0, f.d1, f.d2, 0, 0, 0⟩ : FMap) :: rest else rest)) (some []) = some ms →
       ∀ m ∈ ms, ∃ f, st.inputFeature m.orig = some f ∧ accept f = true ∧ m.describes f := by
   induction idx with
   | nil => intro ms h; simp at h; subst h; simp
@@ -33,7 +49,7 @@ theorem selectFeatures_spec (st : Storage) (accept : Feature → Bool) (idx : Li
     cases hrest : is.foldr (fun i acc => do
         let rest ← acc
         let f ← st.inputFeature i
-        pure (if accept f then (⟨i, f.classes, f.d0, f.d1, f.d2, 0⟩ : FMap) :: rest else rest)) (some []) with
+        pure (if accept f then (⟨i, f.classes, f.d0, f.d1, f.d2, 0, 0, 0⟩ : FMap) :: rest else rest)) (some []) with
     | none => rw [hrest] at h; simp at h
     | some rest =>
       rw [hrest] at h
@@ -109,6 +125,27 @@ theorem makePairwise_mem (m1 m2 : List FMap) : ∀ m ∈ makePairwise m1 m2,
   · rw [List.getD_eq_getElem?_getD, List.getElem?_eq_getElem hb.1]; simp
   · rw [List.getD_eq_getElem?_getD, List.getElem?_eq_getElem hb.2]; simp
 
+/-- the rows `do_fit` of the gradient generator produces: exactly one per (selected feature of at least 3x3, channel, mode) -/
+theorem gradientMapping_mem (sel : List FMap) (m : FMap) :
+    m ∈ gradientMapping sel ↔
+      ∃ s ∈ sel, 3 ≤ s.d1 ∧ 3 ≤ s.d2 ∧ ∃ ch, ch < s.d0 ∧ ∃ ty, ty < 4 ∧
+        m = { s with d0 := 1, d1 := s.d1 - 2, d2 := s.d2 - 2, chan := ch, mode := ty } := by
+  unfold gradientMapping
+  simp only [List.mem_flatMap]
+  constructor
+  · rintro ⟨s, hs, hm⟩
+    split at hm
+    · rename_i h33
+      simp only [List.mem_flatMap, List.mem_range, List.mem_map] at hm
+      obtain ⟨ch, hch, ty, hty, rfl⟩ := hm
+      exact ⟨s, hs, h33.1, h33.2, ch, hch, ty, hty, rfl⟩
+    · simp at hm
+  · rintro ⟨s, hs, h1, h2, ch, hch, ty, hty, rfl⟩
+    refine ⟨s, hs, ?_⟩
+    rw [if_pos ⟨h1, h2⟩]
+    simp only [List.mem_flatMap, List.mem_range, List.mem_map]
+    exact ⟨ch, hch, ty, hty, rfl⟩
+
 theorem fit_wf (st : Storage) (kind : GKind) (l1 l2 : List Nat) (g : Gen) (h : fit st kind l1 l2 = some g) :
     g.WF st := by
   unfold fit at h
@@ -123,13 +160,38 @@ theorem fit_wf (st : Storage) (kind : GKind) (l1 l2 : List Nat) (g : Gen) (h : f
       | some m2 =>
         simp [h1, h2] at h
         subst h
-        refine ⟨by simp, ?_⟩
+        refine ⟨by simp, ?_, fun c k2 hk => by cases hk⟩
         intro i m hm
         have hmem := List.mem_of_getElem? hm
         obtain ⟨a, ha, b, hb, rfl⟩ := makePairwise_mem m1 m2 m hmem
         obtain ⟨fa, hfa, hacc, hdesc⟩ := selectFeatures_mem st _ l1 m1 h1 a ha
         obtain ⟨fb, hfb, haccb, _⟩ := selectFeatures_mem st _ l2 m2 h2 b hb
         exact ⟨fa, hfa, hacc, hdesc, fun _ => ⟨fb, hfb, by simpa [kindAccepts] using haccb⟩⟩
+  | gradient k =>
+    simp only [Option.bind_eq_bind, Option.pure_def] at h
+    cases h1 : selectFeatures st (kindAccepts (.gradient k)) l1 with
+    | none => rw [h1] at h; simp at h
+    | some sel =>
+      rw [h1] at h
+      simp only [Option.bind_some, Option.some.injEq] at h
+      subst h
+      refine ⟨by simp, ?_, fun c k2 hk => by cases hk⟩
+      intro i m hm
+      obtain ⟨s, hs, h31, h32, ch, hch, ty, hty, rfl⟩ := (gradientMapping_mem sel m).1 (List.mem_of_getElem? hm)
+      obtain ⟨f, hf, hacc, hc, hd0, hd1, hd2⟩ := selectFeatures_mem st _ l1 sel h1 s hs
+      refine ⟨f, hf, hacc, ?_, fun hk => by cases hk⟩
+      show _ ∧ _ ∧ _ ∧ _ ∧ _ ∧ _ ∧ _ ∧ _
+      refine ⟨hc, rfl, ?_, ?_, ?_, hty, ?_, ?_⟩
+      · show s.d1 - 2 + 2 = f.d1
+        omega
+      · show s.d2 - 2 + 2 = f.d2
+        omega
+      · show ch < f.d0
+        omega
+      · show 1 ≤ s.d1 - 2
+        omega
+      · show 1 ≤ s.d2 - 2
+        omega
   | sclassId | mclassId | scalarId | structId =>
     all_goals
       simp only [Option.bind_eq_bind, Option.pure_def] at h
@@ -139,10 +201,47 @@ theorem fit_wf (st : Storage) (kind : GKind) (l1 l2 : List Nat) (g : Gen) (h : f
         rw [h1] at h
         simp only [Option.bind_some, Option.some.injEq] at h
         subst h
-        refine ⟨by simp, ?_⟩
+        refine ⟨by simp, ?_, fun c k2 hk => by cases hk⟩
         intro i m hm
         obtain ⟨f, hf, hacc, hdesc⟩ := selectFeatures_mem st _ l1 m1 h1 m (List.mem_of_getElem? hm)
         exact ⟨f, hf, hacc, hdesc, fun hk => by cases hk⟩
+  | custom c =>
+    simp only [Option.bind_eq_bind, Option.pure_def] at h
+    cases hc2 : c.in2 with
+    | none =>
+      simp only [hc2] at h
+      cases h1 : selectFeatures st (kindAccepts (.custom c)) l1 with
+      | none => rw [h1] at h; simp at h
+      | some m1 =>
+        rw [h1] at h
+        simp only [Option.bind_some, Option.some.injEq] at h
+        subst h
+        refine ⟨by simp, ?_, fun c' k2 hk hin => by cases hk; rw [hc2] at hin; cases hin⟩
+        intro i m hm
+        obtain ⟨f, hf, hacc, hdesc⟩ := selectFeatures_mem st _ l1 m1 h1 m (List.mem_of_getElem? hm)
+        exact ⟨f, hf, hacc, hdesc, fun hk => by cases hk⟩
+    | some k2 =>
+      simp only [hc2] at h
+      cases h1 : selectFeatures st (kindAccepts (.custom c)) l1 with
+      | none => simp [h1] at h
+      | some m1 =>
+        cases h2 : selectFeatures st k2.accepts l2 with
+        | none => simp [h1, h2] at h
+        | some m2 =>
+          simp [h1, h2] at h
+          subst h
+          refine ⟨by simp, ?_, ?_⟩
+          · intro i m hm
+            obtain ⟨a, ha, b, hb, rfl⟩ := makePairwise_mem m1 m2 m (List.mem_of_getElem? hm)
+            obtain ⟨fa, hfa, hacc, hdesc⟩ := selectFeatures_mem st _ l1 m1 h1 a ha
+            exact ⟨fa, hfa, hacc, hdesc, fun hk => by cases hk⟩
+          · intro c' k2' hk hin i m hm
+            cases hk
+            rw [hc2] at hin
+            cases hin
+            obtain ⟨a, ha, b, hb, rfl⟩ := makePairwise_mem m1 m2 m (List.mem_of_getElem? hm)
+            obtain ⟨fb, hfb, haccb, _⟩ := selectFeatures_mem st _ l2 m2 h2 b hb
+            exact ⟨fb, hfb, haccb⟩
 
 /-! ### column bookkeeping -/
 
@@ -200,13 +299,15 @@ theorem sum_flatMap_map {β : Type} (l : List β) (g : β → List Feature) :
   | nil => rfl
   | cons x xs ih => simp [List.flatMap_cons, ih]
 
+theorem featureColumns_customDesc (o : Overload) (name : String) : featureColumns (customDesc o name) = customCols o := by
+  cases o <;> rfl
+
 /-- descriptor / `process` agreement: the columns the dataset reserves for a generated feature are the columns its generator
     writes -/
 theorem featureColumns_eq_colsize (st : Storage) (g : Gen) (hg : g.WF st) (i : Nat) (hi : i < g.features) :
     ∃ desc, g.feature st i = some desc ∧ featureColumns desc = g.colsize i := by
   have hi' : i < g.mapping.length := hi
   obtain ⟨f, hf, hacc, hdesc, hprod⟩ := hg.rows i g.mapping[i] (List.getElem?_eq_getElem hi')
-  obtain ⟨h1, h2, h3, h4⟩ := hdesc
   have hget : g.mapping.getD i default = g.mapping[i] := by
     rw [List.getD_eq_getElem?_getD, List.getElem?_eq_getElem hi']; rfl
   unfold Gen.feature Gen.colsize
@@ -215,21 +316,35 @@ theorem featureColumns_eq_colsize (st : Storage) (g : Gen) (hg : g.WF st) (i : N
   | product =>
     obtain ⟨f2, hf2, _⟩ := hprod hk
     simp [hf, hf2, featureColumns, Feature.dimSize]
+  | gradient k =>
+    rw [hk] at hdesc
+    obtain ⟨_, h0, _, _, _, _⟩ := hdesc
+    simp [hf, featureColumns, Feature.dimSize, h0]
+  | custom c =>
+    cases hc2 : c.in2 with
+    | none => simp [hf, hc2, featureColumns_customDesc]
+    | some k2 =>
+      obtain ⟨f2, hf2, _⟩ := hg.rows2 c k2 hk hc2 i _ (List.getElem?_eq_getElem hi')
+      simp [hf, hf2, hc2, featureColumns_customDesc]
   | sclassId =>
-    rw [hk] at hacc
+    rw [hk] at hacc hdesc
+    obtain ⟨h1, h2, h3, h4⟩ := hdesc
     simp [kindAccepts, Feature.isSclass] at hacc
     simp [hf, featureColumns, hacc, h1]
   | mclassId =>
-    rw [hk] at hacc
+    rw [hk] at hacc hdesc
+    obtain ⟨h1, h2, h3, h4⟩ := hdesc
     simp [kindAccepts, Feature.isMclass] at hacc
     simp [hf, featureColumns, hacc, h1]
   | scalarId =>
-    rw [hk] at hacc
+    rw [hk] at hacc hdesc
+    obtain ⟨h1, h2, h3, h4⟩ := hdesc
     simp [kindAccepts, Feature.isScalar, Feature.isClass] at hacc
     simp only [Option.bind_eq_bind, Option.bind_some, hf, featureColumns, Option.some.injEq, exists_eq_left']
     cases hty : f.type <;> simp_all
   | structId =>
-    rw [hk] at hacc
+    rw [hk] at hacc hdesc
+    obtain ⟨h1, h2, h3, h4⟩ := hdesc
     simp [kindAccepts, Feature.isStruct, Feature.isClass] at hacc
     simp only [Option.bind_eq_bind, Option.bind_some, hf, featureColumns, Option.some.injEq, exists_eq_left']
     cases hty : f.type <;> simp_all [Feature.dimSize]
